@@ -18,6 +18,7 @@ import numpy as np
 
 from mc import core, build
 from mc.core import Rec, HarnessError
+from mc.refmodel import basic as ref
 
 META = {
     'rule': ('states: subsets of missing items (E1) and distinct reference specs reached by edit histories (E2); transitions: one real createPRISM / solve / '
@@ -29,6 +30,7 @@ META = {
 }
 
 TYPES2 = ['A', 'B']
+TYPES2N = ['solv', 'poly']
 
 
 def base_spec(types=None, L=64):
@@ -203,6 +205,7 @@ def edit_ops(types):
         ops.append(['kT', v])
     ops.append(['potential', kab, ['HS', {}]])
     ops.append(['potential', kab, ['EXP', {'epsilon': 0.2, 'alpha': 0.5}]])
+    ops.append(['potential', kab, ['LJ', {'epsilon': 0.2, 'rcut': 2.5, 'shift': True, 'sigma': 0.8}]])      # explicit sigma != diameter mean
     ops.append(['closure', kab, ['PY', False]])
     ops.append(['closure', kab, ['HNC', True]])
     ops.append(['omega', kaa, ['SingleSite', {}]])
@@ -293,6 +296,44 @@ def compare_wiring(P, F, spec):
     return pr
 
 
+def spec_wiring(P, spec):
+    """PRISM object vs what the statement of C16 says it is wired from, computed from the spec alone (refmodel):
+    each pair's closure sees that pair's u(r)/kT on the domain grid and that pair's contact distance (diameter mean);
+    omega is the pair's model on the k grid times the site density."""
+    pr = []
+    types = spec['types']
+    r, k = np.asarray(P.sys.domain.r), np.asarray(P.sys.domain.k)
+    T = build.ref_tables(spec, r, k)
+    for i, a in enumerate(types):
+        for j, b in enumerate(types):
+            if j < i:
+                continue
+            U = T['U'][(i, j)]
+            pc = P.sys.closure[a, b]
+            if abs(float(pc.sigma) - U['sig_clo']) > 1e-14:
+                pr.append('closure[%s,%s].sigma = %r, contact distance of that pair (d_a+d_b)/2 = %r' % (a, b, pc.sigma, U['sig_clo']))
+            amb = ref.ambiguous(r, U['sig_pot'])            # K2 belongs to C10
+            got = np.asarray(pc.potential, dtype=float)
+            want = np.asarray(U['u'], dtype=float)
+            if got.shape != want.shape:
+                pr.append('closure[%s,%s].potential has shape %r' % (a, b, got.shape))
+            else:
+                m = ~amb
+                dev = np.abs(got[m] - want[m])
+                lim = 1e-11 * (np.abs(want[m]) + 1.0)
+                if np.any(~(dev <= lim)):
+                    ii = int(np.argmax(~(dev <= lim)))
+                    pr.append('closure[%s,%s].potential at r=%.4g is %r, u_%s%s(r)/kT from the specification is %r'
+                              % (a, b, float(r[m][ii]), float(got[m][ii]), a, b, float(want[m][ii])))
+            for (x, y) in ((a, b), (b, a)):
+                om = np.asarray(P.omega[x, y], dtype=float)
+                wo = T['Omega'][:, i, j]
+                if om.shape != wo.shape or not np.all(np.abs(om - wo) <= 1e-9 * (np.abs(wo) + 1.0)):
+                    pr.append('PRISM.omega[%s,%s] is not the omega model of that pair on the k grid times its site density' % (x, y))
+                    break
+    return pr
+
+
 def check_state(rec, case, s, spec, hist, with_solve):
     """Observers at one state: createPRISM (and solve) vs a fresh System; System untouched."""
     tg = {'kind': 'state'}
@@ -310,6 +351,8 @@ def check_state(rec, case, s, spec, hist, with_solve):
         rec.fail(dict(case, ops=hist), 'after %s: createPRISM modified the System' % (hist,), dict(tg, kind='system-modified'))
     for msg in compare_wiring(P, F, spec)[:2]:
         rec.fail(dict(case, ops=hist), 'after %s: %s' % (hist, msg), dict(tg, kind='wiring'))
+    for msg in spec_wiring(P, spec)[:2]:
+        rec.fail(dict(case, ops=hist), 'after %s: %s' % (hist, msg), dict(tg, kind='wiring-spec'))
     if with_solve:
         rec.trans()
         with warnings.catch_warnings(), np.errstate(all='ignore'):
@@ -476,6 +519,10 @@ def run(rec, tier, seed):
     items.append(('bfs', TYPES2, [], 0, True))
     for op in ops:
         items.append(('bfs', TYPES2, [op], bdepth, True))
+    # the same exploration one level shallower with type names whose list order is not their sorted order
+    items.append(('bfs', TYPES2N, [], 0, True))
+    for op in edit_ops(TYPES2N):
+        items.append(('bfs', TYPES2N, [op], bdepth - 1, True))
     # all sequences (edits and calls) without deduplication
     sdepth = 2 if quick else 3
     allops = ops + CALL_OPS
